@@ -28,7 +28,21 @@ func Quiesce(s *stack.Stack) error {
 }
 
 // DirEqualsIndex is the C04 oracle (shallow): set of files = index snapshot.
+// The backlog counter counts bytes, so the unlink of a zero-length file (only
+// crash images have those) is not visible in it: a mismatch is therefore
+// re-examined for up to 2 s before it is reported.
 func DirEqualsIndex(s *stack.Stack) error {
+	var err error
+	for deadline := time.Now().Add(2 * time.Second); ; {
+		err = dirEqualsIndexOnce(s)
+		if err == nil || time.Now().After(deadline) || strings.HasPrefix(err.Error(), "VERIF-INFRA") {
+			return err
+		}
+		time.Sleep(5 * time.Millisecond)
+	}
+}
+
+func dirEqualsIndexOnce(s *stack.Stack) error {
 	if err := Quiesce(s); err != nil {
 		return err
 	}
